@@ -88,6 +88,9 @@ def base_pool():
         "c_tunneling": lambda: qutip.tunneling(2), "c_projection": lambda: qutip.projection(2, 0, 1),
         "c_rand_herm": lambda: qutip.rand_herm(2, seed=1), "c_rand_unitary": lambda: qutip.rand_unitary(2, seed=1),
         "c_rand_dm": lambda: qutip.rand_dm(2, seed=1), "c_globalphase": lambda: qutip.gates.globalphase(0.5),
+        # rectangular objects from the constructors: never Hermitian, never unitary
+        "c_qzero_rect": lambda: qutip.qzero(2, dims_right=3), "c_qdiags_rect": lambda: qutip.qdiags([1, 1], 0, shape=(2, 3)),
+        "c_qzero_like_ket": lambda: qutip.qzero_like(qutip.basis(2, 0)),
     }
     # diagonal storage as SciPy hands it over: the diagonals in any order (+k before -k, main diagonal last, ...)
     import scipy.sparse as sp
